@@ -102,6 +102,7 @@ func overlayFiles(s *Spec, dir string, native bool) (map[string]string, error) {
 	ov[filepath.Join(repoDir, "zzverif/vf", vf)] = filepath.Join(verifDir, "harness/vf", vf)
 	if native {
 		ov[filepath.Join(repoDir, "zzverif/vf", "codec_native.go")] = filepath.Join(verifDir, "harness/vf", "codec_native.go")
+		ov[filepath.Join(repoDir, "zzverif/vf", "fs_native.go")] = filepath.Join(verifDir, "harness/vf", "fs_native.go")
 	}
 	for _, f := range s.Files {
 		ov[filepath.Join(repoDir, s.Dir, "zz_verif_"+filepath.Base(f))] = filepath.Join(dir, f)
